@@ -305,6 +305,38 @@ def run_config(chk, ctx, name):
                        "the leaf handed to level i's key generation is decomposition[%s], not indexed by the loop item that also supplies level i's parameter" % (ie,),
                        where=xf.loc(b))
                 found = True
+                # ... and level i's *parameter* is element i of the decoded parameter list: either the enumerate item that also
+                # supplies the index (enumerate directly over the list, so numbering and elements agree), or list[i] with the
+                # very same index expression
+                dec_path = core.strip_generics(key_anchors(F, A)["decoder"].path)
+
+                def mentions_params(e):
+                    return any(x[0] == "call" and core.strip_generics(x[1]) == dec_path for x in expr.walk(e))
+                acc = []
+                for j, o in enumerate(t["args"]):
+                    if j == ai:
+                        continue
+                    for x in expr.walk(ex.of_operand(o)):
+                        if x[0] == "index" and mentions_params(x[1]):
+                            acc.append(("index", x[2]))
+                        elif x[0] == "call" and x[1].endswith("::index") and len(x[2]) == 2 and mentions_params(x[2][0]):
+                            acc.append(("index", x[2][1]))
+                        elif x[0] == "field" and x[2] == "1" and x[1][0] == "field" and x[1][2] == "0" and x[1][1][0] == "variant" and item_of(x) is not None:
+                            acc.append(("item", x))
+                okp = bool(acc)
+                for kind, v in acc:
+                    if kind == "index":
+                        okp = okp and v == ie
+                    else:
+                        nx = item_of(v)
+                        # ie must be the .0 of the same item, and the enumerate must sit directly on the list's iterator
+                        same = ie == ("field", v[1], "0")
+                        direct = any(y[0] == "call" and y[1].endswith("::enumerate") and y[2] and y[2][0][0] == "call"
+                                     and y[2][0][1].rsplit("::", 1)[-1] in ("iter", "into_iter") and mentions_params(y[2][0]) for y in expr.walk(nx))
+                        okp = okp and same and direct
+                chk.ob("P1.level-i-gets-parameter-i", xf.key + tag, okp,
+                       "the parameter handed to level i's key generation is not element i of the decoded parameter list (accesses: %s; level index %s)"
+                       % ([pf_short(v) for k, v in acc], pf_short(ie)), where=xf.loc(b))
     chk.ob("P1.per-level-leaf-site-found", xf.key + tag, found, "no in-loop call receiving &decomposition[i] in %s" % xf.path, where=xf.loc())
     # child identity: parent leaf of level i-1
     child = []
@@ -675,6 +707,14 @@ def ref_target_place(f, operand):
             continue
         return None
     return None
+
+
+def pf_short(e):
+    from . import pf
+    try:
+        return pf.short(e, None)
+    except Exception:
+        return str(e)[:80]
 
 
 def item_of(e):
